@@ -80,6 +80,58 @@ def job_row(i, ubsan, tier, seed):
     return ck.export()
 
 
+def job_kernels_ub(tier, seed):
+    """the arithmetic / addressing helpers every row is built from, on the UBSan-instrumented IR, from arbitrary arguments:
+    no undefined shift (count >= width), signed overflow, division by zero or out-of-range table index is reachable"""
+    E = env(True)
+    ck = core.Check('C18', 'model_checking', tier, seed)
+    ex, st0, ctx = E.base()
+    regs, ip = ctx['regs'], ctx['interp']
+    R = E.R()
+    inv = inv_full(E)
+    b1 = lambda n_: z3.BitVec(n_, 8)
+    v64, w64 = z3.BitVec('ka', 64), z3.BitVec('kb', 64)
+    u32, s16, t16, q16 = z3.BitVec('kunit', 32), z3.BitVec('ks', 16), z3.BitVec('kt', 16), z3.BitVec('kq', 16)
+    f0, f1, f2, f3 = [z3.Bool('kf%d' % k) for k in range(4)]          # bool parameters are i1 in the IR
+    bit = lambda f: z3.BoolVal(True)
+    acc16 = lambda t: z3.Or(t == 0, t == 4, t == 8, t == 12)            # RegName a0 a1 b0 b1
+    K = [('AddSub', '@k_addsub', [ip, v64, w64, f0], [bit(f0)]),
+         ('ShiftBus40', '@k_shift', [ip, v64, s16, t16], [acc16(t16)]),
+         ('Exp', '@k_exp', [ip, v64], []),
+         ('SetAccFlag', '@k_setaccflag', [ip, v64], []),
+         ('SaturateAcc', '@k_saturate', [ip, v64], []),
+         ('SatAndSetAccAndFlag', '@k_satset', [ip, t16, v64], [acc16(t16)]),
+         ('GetAndSatAcc', '@k_getsat', [ip, t16], [acc16(t16)]),
+         ('DoMultiplication', '@k_domul', [ip, u32, f0, f1], [z3.ULT(u32, 2), bit(f0), bit(f1)]),
+         ('ProductToBus40', '@k_p2b40', [ip, s16], [z3.ULT(s16, 2)]),
+         ('ProductSum', '@k_prodsum', [ip, s16, t16, f0, f1, f2, f3], [z3.ULT(s16, 4), acc16(t16), bit(f0), bit(f1), bit(f2), bit(f3)]),
+         ('ExtendOperandForAlm', '@k_extalm', [ip, s16, t16], [z3.ULT(s16, 16)]),
+         ('StepAddress', '@k_step', [ip, u32, s16, t16, f0], [z3.ULT(u32, 8), z3.ULT(t16, 8), bit(f0)]),
+         ('RnAndModify', '@k_rnmod', [ip, u32, t16, f0], [z3.ULT(u32, 8), z3.ULT(t16, 8), bit(f0)]),
+         ('RnAddress', '@k_rnaddr', [ip, u32, z3.BitVec('kv32', 32)], [z3.ULT(u32, 8)]),
+         ('OffsetAddress', '@k_offset', [ip, u32, s16, t16, f0], [z3.ULT(u32, 8), z3.ULT(t16, 4), bit(f0)])]
+    for name, fn, args, pre in K:
+        st = st0.fork()
+        ex.exits, ex.oblig = [], []
+        old = ex.unwind
+        ex.unwind = max(old, 80)
+        try:
+            n0 = ex.ninstr
+            ex.call(st, fn, args)
+            ck.ninstr += ex.ninstr - n0
+            ck.nstates += 1
+        except (Abort, UnwindBound) as x:
+            ck.inconclusive.append('kernel %s (UBSan IR): %s' % (name, str(x)[:160]))
+            continue
+        finally:
+            ex.unwind = old
+        X = type('X', (), {'exits': list(ex.exits), 'oblig': list(ex.oblig)})()
+        vars_ = c03.vars_of(R, {str(a): a for a in args if z3.is_expr(a)})
+        ck.prove('Kernel.ub[%s]' % name, inv + pre, z3.And(kit.obligations(X), z3.Not(kit.exit_cond(X, ('ub', 'trap')))), vars=vars_,
+                 sample='%s with arbitrary arguments and any well-formed register state (UBSan-instrumented IR): no shift by >= the operand width, signed overflow, division by zero or out-of-range index' % name if name in ('ShiftBus40', 'StepAddress') else None)
+    return ck.export()
+
+
 def abort_replayer(E, i):
     def rp(inputs):
         tw = interp._twin_cache.get(E.tree) or interp._twin_cache.setdefault(E.tree, interp.Twin(E))
@@ -291,6 +343,7 @@ def run(tier, seed):
     import re
     sensitive = re.compile(r'^(br|brr|call|calla|callr|ret|reti|retic|rets|push|pop|pusha|popa|bkrep|break_|rep|cntx|bank|mov_pc|movpdw|movp|movd|mov_prpage|pop_prpage|push_prpage|mov_icr|mov_lc|mov_repc|mov_stepi0|mov_stepj0|load_|alb|mov$|mov_|swap|lim|exp|norm|cbs|tstb|min|max|divs|vtr|trap|eint|dint|nop|bitrev|modr|exchange)')
     rows = list(range(n))
+    chg = []
     if tier == 'quick':
         keep = [i for i in rows if sensitive.match(E.rows[i]['name'])]
         rest = [i for i in rows if i not in keep]
@@ -305,9 +358,18 @@ def run(tier, seed):
         ck.notes.append('%d rows whose handler IR differs from the pinned reference tree are always included' % len(chg))
         ck.bounds.append('quick tier: %d of %d rows (all control-flow / stack / loop / move / status rows plus a seeded sample of the arithmetic rows); thorough: every row, plus every row again on the UBSan-instrumented IR' % (len(rows), n))
     jobs = [(job_row, (i, False, tier, seed)) for i in rows] + [(job_run, (tier, seed)), (job_dma, (tier, seed)), (job_mem, (tier, seed)), (job_ahbm, (tier, seed))]
+    env(True)
+    jobs.append((job_kernels_ub, (tier, seed)))
     if tier == 'thorough':
-        env(True)
         jobs += [(job_row, (i, True, tier, seed)) for i in range(n)]
+    elif chg:
+        # rows whose IR differs from the reference also run on the UBSan-instrumented IR (at most 48 of them in this tier)
+        ub_rows = sorted(chg)
+        if len(ub_rows) > 48:
+            random.Random(seed).shuffle(ub_rows)
+            ub_rows = sorted(ub_rows[:48])
+            ck.notes.append('UBSan IR: 48 of the %d changed rows (thorough runs all rows)' % len(chg))
+        jobs += [(job_row, (i, True, tier, seed)) for i in ub_rows]
     for r in core.pmap(_dispatch, jobs):
         if '__error__' in r:
             ck.engine_errors.append(r['__error__'])
